@@ -1,8 +1,141 @@
-(** C13 placeholder while the correspondence is being set up *)
+(** C13  Integer-to-string conversions are exact for every integer.
+    Only statements; every proof is [exact <lemma of Int2Str/Int2StrWidths.v>].
+
+    Integers are bit patterns [pat < 2^bits] of a type of [bits] in {8,16,32,64}
+    bits, signed or not ([to_Z bits sg pat] is the value) - so every theorem
+    speaks about every value of all eight integer types.  The decision trees and
+    switch tables the functions run on are those of Int2StrGen.v, regenerated
+    from the C++ source by translate/tr_int2str.py on every check; they enter
+    the proofs only through [conv_ok conv_N = true], computed by vm_compute. *)
 From Coq Require Import List NArith ZArith.
 Import ListNotations.
-Require Import Celma.Common.Res Celma.Int2Str.Int2StrIR Celma.Int2Str.Int2StrGen Celma.Int2Str.Int2StrModel.
+Require Import Celma.Common.Res Celma.Int2Str.Int2StrIR Celma.Int2Str.Int2StrGen Celma.Int2Str.Int2StrSpec
+               Celma.Int2Str.Int2StrModel Celma.Int2Str.Int2StrWidths.
+Local Open Scope N_scope.
 
-Example C13_nonvacuous_run :
-  grouped_int2string 32 true (2^32 - 1234567)%N 39%N = Ok [45; 49; 39; 50; 51; 52; 39; 53; 54; 55]%N.
-Proof. vm_compute. reflexivity. Qed.
+(** The specification functions are the intended ones: [dec v] consists of
+    decimal digits only, is not empty, has no leading zero (except "0" itself)
+    and its value is v - which determines it uniquely. *)
+Theorem C13_dec_canonical :
+  forall v, dec_value (dec v) = v /\ Forall (fun b => is_dec_digit b = true) (dec v) /\
+            dec v <> [] /\ (v <> 0 -> hd 0 (dec v) <> 48) /\ dec 0 = [48].
+Proof. exact dec_canonical. Qed.
+Print Assumptions C13_dec_canonical.
+
+(** [group3]: counted from the right (position 0 = last character) every fourth
+    position holds the separator, the other positions hold the digits in order;
+    the length is n + (n-1)/3. *)
+Theorem C13_group3_positional :
+  forall sep ds x j,
+    (j < length (group3 sep ds))%nat ->
+    nth j (rev (group3 sep ds)) x
+    = if Nat.eqb (j mod 4) 3 then sep else nth (j - j / 4) (rev ds) x.
+Proof. exact Int2StrProofs.group3_nth. Qed.
+Print Assumptions C13_group3_positional.
+
+Theorem C13_group3_length :
+  forall sep ds, length (group3 sep ds) = (length ds + (length ds - 1) / 3)%nat.
+Proof. exact Int2StrProofs.group3_length. Qed.
+Print Assumptions C13_group3_length.
+
+(** Digit-count decision trees: correct for every value of the type. *)
+Theorem C13_strlen_tree_correct :
+  forall bits v, is_width bits -> v < 2 ^ bits ->
+                 str_length (conv_of bits) v = N.of_nat (ndigits v).
+Proof. exact strlen_tree_correct. Qed.
+Print Assumptions C13_strlen_tree_correct.
+
+(** convert(): entered with the digit count of v and a cursor with at least
+    that many characters in front of it (inclusive), it stores exactly the
+    decimal digits of v ending at the cursor and touches nothing else; no store
+    leaves the buffer. *)
+Theorem C13_convert_correct :
+  forall bits v buf cur,
+    is_width bits -> v < 2 ^ bits ->
+    (Z.of_nat (ndigits v) <= cur + 1)%Z -> (cur < Z.of_nat (length buf))%Z ->
+    run_convert (cv_plain (conv_of bits)) 0 buf cur v (N.of_nat (ndigits v))
+    = Ok (firstn (Z.to_nat (cur + 1) - ndigits v) buf ++ dec v ++ skipn (Z.to_nat (cur + 1)) buf).
+Proof. exact convert_correct. Qed.
+Print Assumptions C13_convert_correct.
+
+Theorem C13_grouped_convert_correct :
+  forall bits v sep buf cur,
+    is_width bits -> v < 2 ^ bits ->
+    (Z.of_nat (length (group3 sep (dec v))) <= cur + 1)%Z -> (cur < Z.of_nat (length buf))%Z ->
+    run_convert (cv_grouped (conv_of bits)) sep buf cur v (N.of_nat (ndigits v))
+    = Ok (firstn (Z.to_nat (cur + 1) - length (group3 sep (dec v))) buf
+          ++ group3 sep (dec v) ++ skipn (Z.to_nat (cur + 1)) buf).
+Proof. exact grouped_convert_correct. Qed.
+Print Assumptions C13_grouped_convert_correct.
+
+(** int2string( value): exactly the decimal representation, for every value of
+    every type - including 0 and the minimum of the signed types. *)
+Theorem C13_int2string_exact :
+  forall bits sg pat, is_width bits -> pat < 2 ^ bits ->
+                      int2string bits sg pat = Ok (sdec (to_Z bits sg pat)).
+Proof. exact int2string_exact. Qed.
+Print Assumptions C13_int2string_exact.
+
+(** grouped_int2string( value, sep): the same text with the group character
+    between every three digits counted from the right, for every group
+    character. *)
+Theorem C13_grouped_exact :
+  forall bits sg pat sep, is_width bits -> pat < 2 ^ bits ->
+                          grouped_int2string bits sg pat sep = Ok (sgroup sep (to_Z bits sg pat)).
+Proof. exact grouped_int2string_exact. Qed.
+Print Assumptions C13_grouped_exact.
+
+(** ... and never adjacent to the sign: behind '-' stands the leading digit. *)
+Theorem C13_sep_not_adjacent_to_sign :
+  forall sep z, (z < 0)%Z ->
+    exists d r, sgroup sep z = 45 :: d :: r /\ is_dec_digit d = true /\
+                exists r', dec (Z.to_N (- z)) = d :: r'.
+Proof. exact sep_not_adjacent_to_sign. Qed.
+Print Assumptions C13_sep_not_adjacent_to_sign.
+
+(** Buffer variants, for an arbitrary caller buffer with room for text + NUL:
+    the text and the terminating NUL are written at the start, every other byte
+    of the buffer is unchanged, the text length is returned, no store leaves
+    the buffer. *)
+Theorem C13_buffer_exact :
+  forall bits sg pat buf,
+    is_width bits -> pat < 2 ^ bits ->
+    let text := sdec (to_Z bits sg pat) in
+    (length text < length buf)%nat ->
+    int2string_buf bits sg buf pat
+    = Ok (Z.of_nat (length text), text ++ 0 :: skipn (S (length text)) buf).
+Proof. exact int2string_buf_exact. Qed.
+Print Assumptions C13_buffer_exact.
+
+Theorem C13_grouped_buffer_exact :
+  forall bits sg pat sep buf,
+    is_width bits -> pat < 2 ^ bits ->
+    let text := sgroup sep (to_Z bits sg pat) in
+    (length text < length buf)%nat ->
+    grouped_int2string_buf bits sg buf pat sep
+    = Ok (Z.of_nat (length text), text ++ 0 :: skipn (S (length text)) buf).
+Proof. exact grouped_int2string_buf_exact. Qed.
+Print Assumptions C13_grouped_buffer_exact.
+
+(** Converting the text back (stringTo<T>: std::stoi / stol / stoul and the
+    conversion to T) yields the original value. *)
+Theorem C13_roundtrip :
+  forall bits sg pat s, is_width bits -> pat < 2 ^ bits ->
+                        int2string bits sg pat = Ok s -> string_to bits sg s = Ok pat.
+Proof. exact roundtrip. Qed.
+Print Assumptions C13_roundtrip.
+
+(** Non-vacuity: values that meet the hypotheses and exercise the sign, the
+    minimum, the widest tree and the grouping. *)
+Example C13_nonvacuous_min64 :
+  is_width 64 /\ 2 ^ 63 < 2 ^ 64 /\
+  int2string 64 true (2 ^ 63) = Ok [45; 57; 50; 50; 51; 51; 55; 50; 48; 51; 54; 56; 53; 52; 55; 55; 53; 56; 48; 56] /\
+  to_Z 64 true (2 ^ 63) = (- 9223372036854775808)%Z.
+Proof. vm_compute. repeat split; auto. Qed.
+
+Example C13_nonvacuous_grouped :
+  grouped_int2string 32 true (2 ^ 32 - 1234567) 39 = Ok [45; 49; 39; 50; 51; 52; 39; 53; 54; 55] /\
+  grouped_int2string_buf 16 false [170; 170; 170; 170; 170; 170; 170; 170; 170] 65535 44
+  = Ok (6%Z, [54; 53; 44; 53; 51; 53; 0; 170; 170]) /\
+  string_to 8 true [45; 49; 50; 56] = Ok 128.
+Proof. vm_compute. repeat split; reflexivity. Qed.
